@@ -433,18 +433,20 @@ func (w *world) list(rel, full string, ino uint64) []string {
 	if !ok {
 		fd, err := syscall.Open(full, syscall.O_RDONLY|syscall.O_DIRECTORY|syscall.O_CLOEXEC, 0)
 		if err != nil {
-			delete(w.fds, rel)
-			return nil
+			die("snapshot: open %s: %v", full, err) // an unreliable observation is never reported
 		}
 		d = dirFD{fd, ino}
 		w.fds[rel] = d
 	} else if _, err := syscall.Seek(d.fd, 0, 0); err != nil {
-		return nil
+		die("snapshot: seek %s: %v", full, err)
 	}
 	names := w.names[:0]
 	for {
 		n, err := syscall.ReadDirent(d.fd, w.dbuf)
-		if err != nil || n <= 0 {
+		if err != nil {
+			die("snapshot: read %s: %v", full, err)
+		}
+		if n <= 0 {
 			break
 		}
 		_, _, names = syscall.ParseDirent(w.dbuf[:n], -1, names)
@@ -486,7 +488,7 @@ func (w *world) snapshot() map[string]sig {
 			}
 			full := dir + "/" + name
 			if err := syscall.Lstat(full, &st); err != nil {
-				continue
+				die("snapshot: lstat %s: %v", full, err)
 			}
 			s := sig{mode: st.Mode & syscall.S_IFMT, ino: st.Ino}
 			switch st.Mode & syscall.S_IFMT {
@@ -583,6 +585,14 @@ func (w *world) repair(now map[string]sig) {
 	for rel, b := range w.base {
 		if s, ok := now[rel]; !ok || s != b {
 			damaged = append(damaged, rel)
+		}
+	}
+	for _, l := range [][]string{created, damaged} {
+		for _, rel := range l {
+			if d, ok := w.fds[rel]; ok {
+				syscall.Close(d.fd)
+				delete(w.fds, rel)
+			}
 		}
 	}
 	sort.Slice(created, func(i, j int) bool { return len(created[i]) > len(created[j]) })
@@ -1084,6 +1094,11 @@ func cmdGen(args []string) {
 
 func main() {
 	run.MaybeWorker()
+	var lim syscall.Rlimit
+	if syscall.Getrlimit(syscall.RLIMIT_NOFILE, &lim) == nil && lim.Cur < lim.Max {
+		lim.Cur = lim.Max
+		syscall.Setrlimit(syscall.RLIMIT_NOFILE, &lim)
+	}
 	if len(os.Args) < 2 {
 		die("usage: paths tree|replay|gen ...")
 	}
